@@ -79,8 +79,26 @@ pub fn is_host_item(item: &str) -> bool {
 /// documented items this check is responsible for.
 pub fn lint(tag: &str, ops: &[Op], in_scope: impl Fn(&str) -> bool) -> Result<usize, String> {
     let documented = documented_items(tag)?;
-    let covered: BTreeSet<String> = ops.iter().flat_map(|o| o.covers.iter().cloned()).collect();
+    let mut covered: BTreeSet<String> = ops.iter().flat_map(|o| o.covers.iter().cloned()).collect();
+    // a built-in with an alternative (repaired) signature: exactly one of
+    // the two must be registered
+    let mut absent_ok = BTreeSet::new();
     let mut errs = vec![];
+    for o in ops {
+        if let Some(alt) = &o.alt {
+            let primary = &o.covers[0];
+            match (documented.contains(primary), documented.contains(&alt.cover)) {
+                (true, false) => {
+                    absent_ok.insert(alt.cover.clone());
+                }
+                (false, true) => {
+                    absent_ok.insert(primary.clone());
+                }
+                _ => errs.push(format!("exactly one of `{primary}` and `{}` must be registered", alt.cover)),
+            }
+            covered.insert(alt.cover.clone());
+        }
+    }
     let mut n = 0;
     for d in &documented {
         if is_host_item(d) || !in_scope(d) {
@@ -92,7 +110,7 @@ pub fn lint(tag: &str, ops: &[Op], in_scope: impl Fn(&str) -> bool) -> Result<us
         }
     }
     for c in &covered {
-        if in_scope(c) && !documented.contains(c) {
+        if in_scope(c) && !documented.contains(c) && !absent_ok.contains(c) {
             errs.push(format!("table entry `{c}` does not exist in the runtime under this signature"));
         }
     }
